@@ -432,7 +432,8 @@ impl Profile {
                     }
                 }
                 // names outside ASCII (multi-byte characters, with and without a separator)
-                for nm in ["syst\u{e8}me \u{e9}t\u{e9}", "\u{7269}\u{7406}"] {
+                // ... and names that start with a digit (a name is printed as it is, it need not be an identifier)
+                for nm in ["syst\u{e8}me \u{e9}t\u{e9}", "\u{7269}\u{7406}", "0", "2nd-pass"] {
                     if !used.iter().any(|u| u == nm) {
                         out.push((s(nm.to_string(), &[], &[], 3, vec![]), false));
                     }
@@ -1357,6 +1358,52 @@ pub fn c19_check(ops: &[Op], l: &crate::hsys::Layout, nmaps: usize) -> (u64, Vec
             .collect();
         if changed {
             cmp("systems nobody depends on registered with the empty name", "plan-depends-on-names", &unnamed, &idm, &mut n, &mut vs);
+        }
+    }
+    // (xii) the names used INSIDE a batch are a name space of their own: give every named inner system the name of an
+    //       outer system (the ones the batch depends on first), inner dependency lists renamed along
+    {
+        fn rename_inner(inner: &[Op], outer: &[String]) -> Vec<Op> {
+            let mut names: Vec<String> = Vec::new();
+            for o in inner {
+                if let Op::Sys(x) = o {
+                    if !x.name.is_empty() && !names.contains(&x.name) {
+                        names.push(x.name.clone());
+                    }
+                }
+            }
+            if names.len() > outer.len() {
+                return inner.to_vec();
+            }
+            let f = |n: &String| -> String { names.iter().position(|x| x == n).map_or_else(|| n.clone(), |k| outer[k].clone()) };
+            inner
+                .iter()
+                .map(|o| match o {
+                    Op::Sys(x) => Op::Sys(SysSpec { name: if x.name.is_empty() { String::new() } else { f(&x.name) }, deps: x.deps.iter().map(&f).collect(), ..x.clone() }),
+                    x => x.clone(),
+                })
+                .collect()
+        }
+        let outer_names = named_before(ops);
+        let has_named_inner = ops.iter().any(|o| matches!(o, Op::Batch(b) if b.inner.iter().any(|i| matches!(i, Op::Sys(x) if !x.name.is_empty()))));
+        if has_named_inner && !outer_names.is_empty() {
+            let t: Vec<Op> = ops
+                .iter()
+                .map(|o| match o {
+                    Op::Batch(b) => {
+                        // the batch's own dependencies first, then the other outer names
+                        let mut pool: Vec<String> = b.deps.clone();
+                        for n in &outer_names {
+                            if !pool.contains(n) {
+                                pool.push(n.clone());
+                            }
+                        }
+                        Op::Batch(BatchSpec { inner: rename_inner(&b.inner, &pool), ..b.clone() })
+                    }
+                    x => x.clone(),
+                })
+                .collect();
+            cmp("inner systems of every batch renamed to names used outside the batch", "plan-depends-on-names", &t, &idm, &mut n, &mut vs);
         }
     }
     // (xi) the same dependency SET spelled differently: reversed, the whole list twice (a,b,a,b), mirrored (a,b,b,a),
